@@ -1278,6 +1278,8 @@ def _frexp1(v):
         ee = z3.IntVal(0)
         for k in range(lo, hi + 1):
             ee = z3.If(z3.And(R.e >= core._rv(4.0 ** (k - 1)), R.e < core._rv(4.0 ** k)), z3.IntVal(k), ee)
+        if getattr(E, "frexp_mode", "table") == "fork":
+            return _Unusable("mantissa of a lazy sqrt"), _fork_int(ee, lo, hi)
         return _Unusable("mantissa of a lazy sqrt"), SI(ee)
     a = sabs(v)
     E.solver.add(z3.Or(v.e == 0, z3.And(a.e >= core._rv(2.0 ** (lo - 1)), a.e < core._rv(2.0 ** hi))))
@@ -1289,7 +1291,21 @@ def _frexp1(v):
         c = z3.And(a.e >= core._rv(2.0 ** (k - 1)), a.e < core._rv(2.0 ** k))
         ee = z3.If(c, z3.IntVal(k), ee)
         mm = z3.If(c, v.e * core._rv(2.0 ** (-k)), mm)
+    if getattr(E, "frexp_mode", "table") == "fork":
+        k = _fork_int(ee, lo, hi)
+        return v * (2.0 ** (-k)), k
     return SR(mm, v.bad), SI(ee)
+
+
+def _fork_int(ee, lo, hi):
+    """decide the value of the integer term ee in [lo, hi] by forking (fixed order, so that the
+    re-execution of a decision prefix sees the same questions): the result is a Python int"""
+    order = sorted(range(lo, hi + 1), key=lambda k: (abs(k), k))
+    for k in order[:-1]:
+        if bool(SB(ee == k)):
+            return k
+    core.ENG.assume(SB(ee == order[-1]))
+    return order[-1]
 
 
 def frexp(a):
@@ -1388,6 +1404,25 @@ def diff(a, axis=-1):
     if axis in (1, -1):
         return array([[a[i, j + 1] - a[i, j] for j in range(n - 1)] for i in range(m)])
     return array([[a[i + 1, j] - a[i, j] for j in range(n)] for i in range(m - 1)])
+
+
+def repeat(a, repeats, axis=None):
+    a = _conc(a) if isinstance(a, (ndarray, list, tuple)) else array([a])
+    its = list(a.items) if a.ndim <= 1 else [a[i, j] for i in range(a.shape[0]) for j in range(a.shape[1])]
+    if isinstance(repeats, (ndarray, list, tuple)):
+        reps = list(_conc(repeats).items) if isinstance(repeats, ndarray) else list(repeats)
+    else:
+        reps = [repeats] * len(its)
+    if builtins.any(core.is_sym(r) for r in reps):
+        raise HarnessError("repeat with symbolic counts")
+    if len(reps) == 1 and len(its) != 1:
+        reps = reps * len(its)
+    if len(reps) != len(its):
+        raise ValueError("operands could not be broadcast together")
+    out = []
+    for v, r in zip(its, reps):
+        out.extend([v] * int(r))
+    return ndarray.of(out, a.dtype)
 
 
 def searchsorted(a, v, side="left"):
